@@ -417,6 +417,13 @@ def complete_tokens(pda_factory, raw_tokens, commands=None):
 # BFS
 
 
+CLOSERS = [
+    (";",), ("{", "}"), ("STR", ";"), ("STR", "STR", ";"), ("STR", "{", "}"), ("STR", "STR", "{", "}"),
+    ("STR", "STR", "STR", "{", "}"), ("NUM", "{", "}"), (")", "{", "}"), ("STR", ")", "{", "}"),
+    ("STR", "STR", ")", "{", "}"), ("]", ";"), ("]", "STR", "{", "}"), ("}",), (";", "}"),
+]
+
+
 class Stats:
     def __init__(self):
         self.states = 0
@@ -429,6 +436,7 @@ class Stats:
         self.samples = []
         self.capped = None
         self.completions = 0
+        self.closer_runs = 0
         self.layout_runs = 0
         self.harness_errors = []
 
@@ -446,12 +454,13 @@ class Stats:
         if o.capped:
             self.capped = (self.capped or []) + [o.capped]
         self.completions += o.completions
+        self.closer_runs += o.closer_runs
         self.layout_runs += o.layout_runs
         self.harness_errors.extend(o.harness_errors)
 
 
 def bfs(scn, depth, oracles, layouts=(), layout_depth=3, max_states=None, deadline=None, commands=None,
-        order_seed=0, first_symbols=None, post=None):
+        order_seed=0, first_symbols=None, post=None, base_layout="space"):
     """Explore scenario `scn` = dict(name, prefix, sigma) to `depth` symbols after the prefix.
 
     oracles: list of functions(case) -> [violation]; layouts: extra layouts run for every new-state
@@ -468,7 +477,7 @@ def bfs(scn, depth, oracles, layouts=(), layout_depth=3, max_states=None, deadli
     seen = set()
     frontier = [prefix]
     # the prefix itself
-    c0 = execute(prefix, commands=commands)
+    c0 = execute(prefix, commands=commands, layout=base_layout)
     hc = selfcheck_render(c0)
     if hc:
         st.harness_errors.append("%s: %s" % (scn["name"], hc))
@@ -483,7 +492,7 @@ def bfs(scn, depth, oracles, layouts=(), layout_depth=3, max_states=None, deadli
                 syms = [s for s in sigma if s in first_symbols]
             for s in syms:
                 w2 = w + (s,)
-                case = execute(w2, commands=commands)
+                case = execute(w2, commands=commands, layout=base_layout)
                 st.transitions += 1
                 st.executions += 1
                 obs, v = case.obs, case.v
@@ -508,6 +517,17 @@ def bfs(scn, depth, oracles, layouts=(), layout_depth=3, max_states=None, deadli
                             st.nontrivial.add(hash(key))
                         if len(st.samples) < 6 and obs.verdict == "ACC" and d >= 2:
                             st.samples.append({"word": words.show(w2[len(prefix):]), "impl": obs.brief(), "ref": repr(v)})
+                    if new and not ref_live:
+                        # reference dead, implementation still live: a latent wrong acceptance. Try generic
+                        # closers so that the complete (invalid) script is judged as a whole.
+                        for closer in CLOSERS:
+                            cc = execute(w2 + closer, commands=commands, want_config=False)
+                            st.executions += 1
+                            st.closer_runs += 1
+                            if cc.obs.verdict != "REJ":
+                                for orc in oracles:
+                                    viols.extend(orc(cc))
+                                break
                 elif ref_live and "C01" in scn.get("complete_for", ("C01",)):
                     # implementation stopped on a prefix the reference can still complete:
                     # judge the shortest valid completion as a whole script
@@ -545,3 +565,165 @@ def bfs(scn, depth, oracles, layouts=(), layout_depth=3, max_states=None, deadli
         if not frontier:
             break
     return st, viols
+
+
+# ---------------------------------------------------------------------------------------------
+# C07 removal direction
+
+
+def remove_extension(raw, ext):
+    """raw tokens with `ext` removed from every require (command dropped if its list empties);
+    returns None when ext is not named by any require."""
+    out = []
+    i = 0
+    n = len(raw)
+    found = False
+    q = '"%s"' % ext
+    while i < n:
+        k, t = raw[i]
+        if k == "id" and t.lower() == "require" and i + 1 < n:
+            # collect the command up to ';'
+            j = i + 1
+            while j < n and raw[j][0] != ";":
+                j += 1
+            if j >= n:
+                out.extend(raw[i:])
+                break
+            body = raw[i + 1:j]
+            names = [x for x in body if x[0] == "str"]
+            if any(x[1] == q for x in names):
+                found = True
+                keep = [x for x in names if x[1] != q]
+                if keep:
+                    out.append(raw[i])
+                    if len(body) == 1:
+                        out.append(keep[0])
+                    else:
+                        out.append(("[", "["))
+                        for m, x in enumerate(keep):
+                            if m:
+                                out.append((",", ","))
+                            out.append(x)
+                        out.append(("]", "]"))
+                    out.append(raw[j])
+                i = j + 1
+                continue
+            out.extend(raw[i:j + 1])
+            i = j + 1
+            continue
+        out.append(raw[i])
+        i += 1
+    return out if found else None
+
+
+def post_c07_removal(case, st):
+    v = case.v
+    if v.kind != "VALID" or not v.uses or case.raw is None:
+        return []
+    out = []
+    for ext in sorted({u[0] for u in v.uses}):
+        raw2 = remove_extension(case.raw, ext)
+        if raw2 is None:
+            continue
+        c2 = execute(case.word, raw=raw2, want_config=False)
+        st.executions += 1
+        if c2.v.kind != "INVALID" or c2.v.reason not in ("EXT_CMD", "EXT_TAG"):
+            # removal produced something else first (cannot happen for a valid script, but stay sound)
+            st.harness_errors.append("removal of %s from %r gives %r" % (ext, words.show(case.word), c2.v))
+            continue
+        want_ext = c2.v.detail
+        if want_ext != ext:
+            st.harness_errors.append("removal of %s: reference names %s first in %r" % (ext, want_ext, words.show(case.word)))
+            continue
+        obs = c2.obs
+        expect = "extension '%s' not loaded" % ext
+        ok = obs.verdict == "REJ" and isinstance(obs.error, str) and re.match(r"^line \d+: ", obs.error) and \
+            obs.error.split(": ", 1)[1] == expect
+        if not ok:
+            out.append(viol("C07", "removal", c2, c2.v.reason, c2.v.owner, ext, c2.v.ctx,
+                            "after removing %r from require: expected rejection %r, got %s" % (ext, expect, obs.brief())))
+    return out
+
+
+# ---------------------------------------------------------------------------------------------
+# C18 error positions
+
+SUFFIXES = ((";",), ("}",), ("foo",), ("RAW:&",))
+
+
+def oracle_c18(case):
+    obs, v = case.obs, case.v
+    if obs.verdict != "REJ" or v.kind != "INVALID":
+        return []
+    ep = obs.error_pos
+    if not (isinstance(ep, tuple) and len(ep) == 3 and all(type(x) is int for x in ep)):
+        return []  # C02's business
+    m = _LINE_RE.match(obs.error or "")
+    if not m:
+        return []
+    line_reported = int(m.group(1))
+    toks = case.toks
+    idx = v.index
+    out = []
+    if v.reason == "LEX":
+        off, line, col, why = case.lerr
+        want = (line, col, None)
+    elif idx < len(toks):
+        t = toks[idx]
+        want = (t.line, t.col, len(t.text))
+    else:
+        want = None  # end of input
+    exact = v.reason in WRONG_IN_ITSELF and (v.reason != "SURPLUS_ARG" or v.detail in ("s", "n"))
+    if exact and want is not None:
+        bad = None
+        if line_reported != want[0]:
+            bad = "reported line %d, offending token starts on line %d" % (line_reported, want[0])
+        elif (ep[0], ep[1]) != (want[0], want[1]):
+            bad = "error_pos %r, offending token at line %d column %d" % (ep, want[0], want[1])
+        elif want[2] is not None and ep[2] != want[2]:
+            bad = "error_pos length %d, offending token is %d bytes" % (ep[2], want[2])
+        if bad:
+            out.append(viol("C18", "position", case, what=bad))
+    else:
+        if want is None:
+            # first invalidating "token" is the end of input: anything from the last token on is fine
+            if toks:
+                t = toks[-1]
+                lo = (t.line, t.col)
+            else:
+                lo = (1, 1)
+        else:
+            lo = (want[0], want[1])
+        if (ep[0], ep[1]) < lo or line_reported < lo[0]:
+            out.append(viol("C18", "position-early", case,
+                            what="reported position line %d / %r is before the first invalidating token at %r" % (
+                                line_reported, ep, lo)))
+    return out
+
+
+def post_c18_suffix(case, st):
+    """the verdict of a token-level rejection must not depend on what follows the token"""
+    obs = case.obs
+    if obs.verdict != "REJ" or obs.config is not None or case.raw is None:
+        return []
+    out = []
+    for suf in SUFFIXES:
+        raw2 = case.raw + words.expand(suf)
+        c2 = execute(case.word + suf, layout=case.layout, raw=raw2, want_config=False)
+        st.executions += 1
+        o2 = c2.obs
+        # the suffix must not have changed the tokenisation of the prefix itself (e.g. a separator
+        # containing "*/" after an unterminated comment): then it is not "what follows the token"
+        if case.lerr is not None and (c2.lerr is None or c2.lerr[0] != case.lerr[0]):
+            continue
+        if len(c2.toks) < len(case.toks) or any(a.offset != b.offset or a.text != b.text for a, b in zip(case.toks, c2.toks)):
+            continue
+        if o2.verdict != "REJ" or o2.error != obs.error or o2.error_pos != obs.error_pos:
+            v = viol("C18", "suffix-dependent", case,
+                     what="with %r appended: %s %r instead of %s %r" % (" ".join(suf), o2.brief(), o2.error_pos, obs.brief(), obs.error_pos))
+            v["text"] = c2.text.decode("utf-8", "backslashreplace")
+            v["text_hex"] = c2.text.hex()
+            v["base_text_hex"] = case.text.hex()
+            out.append(v)
+            break
+    return out
